@@ -460,6 +460,18 @@ class LinkSameWithUnits(LinkTwoWay):
     def backwards(self, values):
         return self._converter.to_unit(self._cid2.parent, self._cid2, values, self.units1)
 
+    def __gluestate__(self, context):
+        # The transformation functions are methods of the link itself, so we
+        # only store the component IDs (from which the link is re-built)
+        state = {}
+        state['cid1'] = context.id(self._cid1)
+        state['cid2'] = context.id(self._cid2)
+        return state
+
+    @classmethod
+    def __setgluestate__(cls, rec, context):
+        return cls(context.object(rec['cid1']), context.object(rec['cid2']))
+
 
 class LinkAligned(LinkCollection):
     """
